@@ -659,7 +659,64 @@ def r10_8(ctx):
         ctx.floor(n, 1, f"buffer writes in Console.{name}")
 
 
-RULES = [r10_1, r10_2, r10_3, r10_4, r10_5, r10_6, r10_7, r10_8]
+def r10_9(ctx):
+    ctx.rule("R10.9", "start() does not leak on a raising renderable: when start() itself renders (a call of self.refresh() or of another method of the class that reaches refresh / console.print) after it has hidden the cursor, redirected io or pushed the render hook, every exceptional exit from that call passes the matching releases (or self.stop()) before leaving start() - __enter__ propagates the exception and __exit__ is then never run, so nothing else would restore the terminal")
+    n = 0
+    for spec in ("live:Live", "progress:Progress"):
+        cls = ctx.repo.cls(spec)
+        start = cls.method("start")
+        if start is None:
+            raise AnchorVanished(f"{spec}.start not found")
+        m = start.module
+        # methods of the class that render the user's renderable
+        renders = {"refresh"}
+        changed = True
+        while changed:
+            changed = False
+            for q in [fi for lst in cls.methods.values() for fi in lst]:
+                if q.node.name in renders or q.node.name in ("start", "stop", "__enter__", "__exit__"):
+                    continue
+                for c in walk_local(q.node):
+                    if isinstance(c, ast.Call) and isinstance(c.func, ast.Attribute) and ((norm(c.func.value) == "self" and c.func.attr in renders) or norm(c.func) in ("self.console.print", "self.console.log")):
+                        renders.add(q.node.name)
+                        changed = True
+                        break
+
+        def is_render_stmt(st):
+            return any(isinstance(c, ast.Call) and isinstance(c.func, ast.Attribute) and norm(c.func.value) == "self" and c.func.attr in renders for c in ast.walk(st))
+
+        def may_raise(node):
+            return node.kind == "stmt" and node.stmt is not None and not isinstance(node.stmt, (ast.With, ast.Try, ast.If, ast.For, ast.While)) and is_render_stmt(node.stmt)
+
+        g = cfgmod.build(start.node, may_raise)
+        acq = {}
+        for nd in g.stmt_nodes():
+            if nd.kind == "stmt" and isinstance(nd.stmt, ast.Expr) and isinstance(nd.stmt.value, ast.Call):
+                r = _release_of(nd.stmt.value)
+                if r:
+                    acq[nd.id] = r
+        ctx.floor(len(acq), 3, f"acquisitions in {spec}.start")
+        render_nodes = [nd for nd in g.stmt_nodes() if may_raise(nd)]
+        if not render_nodes:
+            ctx.ok(start.where, f"{spec}.start does not render after acquiring", start.fq)
+            n += 1
+            continue
+        for aid, (kind, desc) in sorted(acq.items()):
+            rel = set()
+            for nd in g.stmt_nodes():
+                if nd.kind == "stmt" and nd.stmt is not None and not isinstance(nd.stmt, (ast.With, ast.Try, ast.If, ast.For, ast.While)):
+                    for c in ast.walk(nd.stmt):
+                        if isinstance(c, ast.Call) and (_is_release(c, kind) or _helper_must_release(cls, c, kind) or norm(c.func) == "self.stop"):
+                            rel.add(nd.id)
+            n += 1
+            w = g.must_pass(aid, rel, {g.rexit})
+            ctx.check(w is None, start.fq, f"{desc} on the raising exit of start()", f"{m.relpath}:{g.nodes[aid].lineno}", f"{desc} (or stop()) is passed before an exception from the first refresh leaves start()",
+                      f"start() renders (`{short(render_nodes[0].stmt)}`) after `{short(g.nodes[aid].stmt)}`; if the renderable raises there, start() is left without {desc}: `with {spec.split(':')[1]}(...)` propagates the exception out of __enter__, __exit__ never runs, and the terminal keeps a hidden cursor / redirected stdout / the render hook",
+                      g.describe_path(w) if w else None)
+    ctx.floor(n, 2, "start() methods analysed")
+
+
+RULES = [r10_1, r10_2, r10_3, r10_4, r10_5, r10_6, r10_7, r10_8, r10_9]
 
 
 def _xcheck(ctx):
